@@ -91,9 +91,27 @@ func findFunc(c *core.Ctx, rel, name string) (*ast.FuncDecl, *types.Info) {
 	return nil, nil
 }
 
-// classifyArm names a case body of the dispatch by what it calls.
-func classifyArm(info *types.Info, body []ast.Stmt) string {
+// classifyArm names a case body of the dispatch by what it calls, directly or
+// through unexported functions/methods of the same package that the body
+// hands its work to (followed two levels deep).
+func classifyArm(c *core.Ctx, info *types.Info, body []ast.Stmt) string {
+	return classifyArmD(c, info, body, 0)
+}
+
+func classifyArmD(c *core.Ctx, info *types.Info, body []ast.Stmt, depth int) string {
 	arm := "refusal"
+	upgrade := func(a string) {
+		switch a {
+		case "detail":
+			arm = "detail"
+		case "simple":
+			if arm != "detail" {
+				arm = "simple"
+			}
+		case "gosyntax":
+			arm = "gosyntax"
+		}
+	}
 	for _, s := range body {
 		ast.Inspect(s, func(n ast.Node) bool {
 			call, ok := n.(*ast.CallExpr)
@@ -101,21 +119,27 @@ func classifyArm(info *types.Info, body []ast.Stmt) string {
 				return true
 			}
 			name := ""
+			var id *ast.Ident
 			switch f := call.Fun.(type) {
 			case *ast.SelectorExpr:
-				name = f.Sel.Name
+				name, id = f.Sel.Name, f.Sel
 			case *ast.Ident:
-				name = f.Name
+				name, id = f.Name, f
 			}
 			switch name {
 			case "formatEntries":
-				arm = "detail"
+				upgrade("detail")
 			case "formatSingleLineOutput":
-				if arm != "detail" {
-					arm = "simple"
-				}
+				upgrade("simple")
 			case "GoString":
-				arm = "gosyntax"
+				upgrade("gosyntax")
+			case "formatRecursive", "finishDisplay", "":
+			default:
+				if fn, ok := info.Uses[id].(*types.Func); ok && depth < 2 && !fn.Exported() && fn.Pkg() != nil && fn.Pkg().Path() == errbasePath {
+					if hd, hinfo := findFunc(c, "errbase", name); hd != nil {
+						upgrade(classifyArmD(c, hinfo, hd.Body.List, depth+1))
+					}
+				}
 			}
 			return true
 		})
@@ -204,7 +228,7 @@ func runVerbDispatch(c *core.Ctx) {
 					taken = taken || v
 				}
 				if taken && got == "" {
-					got = classifyArm(info, cc.Body)
+					got = classifyArm(c, info, cc.Body)
 				}
 			}
 			if undecided {
@@ -212,7 +236,7 @@ func runVerbDispatch(c *core.Ctx) {
 				return
 			}
 			if got == "" {
-				got = classifyArm(info, defaultBody)
+				got = classifyArm(c, info, defaultBody)
 			}
 			n++
 			w := want(verb, plus, sharp, red)
